@@ -20,7 +20,7 @@ TIE_MODULES = ['Tie.Flags']
 
 BYTE_LEAVES = [S('a'), S('ab'), S(''), RX('a+'), BYTE(0x61), BYTE(0x62), REF('A'), FAIL]
 
-EXTRA_TEXT_INPUTS = ['A', 'Ab', 'aB', 'abab', 'aabb', 'ababa', 'bbbbb', 'aaaaa']
+EXTRA_TEXT_INPUTS = ['A', 'Ab', 'aB', 'AA', 'aA', 'Aa', 'AAb', 'aAb', 'AaA', 'abab', 'aabb', 'ababa', 'bbbbb', 'aaaaa']
 
 
 def build_jobs(tier, seed):
@@ -115,7 +115,7 @@ def summarize(results, what, cmp_failpos=False):
             samples.append({'grammar': r['text'], 'outcomes': r['outcomes']})
         for m in r['mismatches']:
             item = {'key': f'{r["text"]}|{m["entry"]}|{m["pos"]}|{m["input"]}',
-                    'grammar': r['text'], 'sig': m.get('variant') or r['text'], 'bm': r.get('bm', False), **m}
+                    'grammar': r['text'], 'sig': m.get('variant') or r['text'], 'bm': r.get('bm', False), 'prep': r.get('prep'), **m}
             if m['kind'] == 'spec':
                 item['what'] = (f'implementation {m["real"]} but documented meaning {m["peg"]} '
                                 f'on input {m["input"]!r}')
